@@ -81,6 +81,33 @@ def extract_nested_variables(
     return all_subs, component_subs
 
 
+def local_variable_subs(var: myokit.Variable) -> dict[sp.Symbol, sp.Symbol]:
+    """Substitutions for the variables that an expression can refer to
+    by their local name, i.e the nested variables of the variable itself
+    and of the variables it is nested in.
+
+    Parameters
+    ----------
+    var : myokit.Variable
+        The variable owning the expression
+
+    Returns
+    -------
+    dict[sp.Symbol, sp.Symbol]
+        Map from the local name to the unique name
+    """
+    subs: dict[sp.Symbol, sp.Symbol] = {}
+    scope = var
+    while isinstance(scope, myokit.Variable):
+        for v in scope.variables():
+            name = v.uname()
+            if name in reserved_names:
+                name = f"{name}_"
+            subs.setdefault(sp.Symbol(v.name()), sp.Symbol(name))
+        scope = scope.parent()
+    return subs
+
+
 def mmt_to_gotran(filename: str | Path) -> ODE:
     """Convert a myokit model to gotran ODE
 
@@ -151,7 +178,7 @@ def myokit_to_gotran(model: myokit.Model, protocol=None) -> ODE:
                 states.append(state)
                 with sp.core.parameters.evaluate(False):
                     expr = myokit.formats.sympy.write(var.eq().rhs)
-                    expr = expr.xreplace({v.name(): v.uname() for v in var.variables(deep=True)})
+                    expr = expr.xreplace(local_variable_subs(var))
                     expr = expr.xreplace(component_subs.get(component.name(), {}))
                     expr = expr.xreplace(all_subs)
 
@@ -181,9 +208,7 @@ def myokit_to_gotran(model: myokit.Model, protocol=None) -> ODE:
 
                 else:
                     with sp.core.parameters.evaluate(False):
-                        expr = expr.xreplace(
-                            {v.name(): v.uname() for v in var.variables(deep=True)}
-                        )
+                        expr = expr.xreplace(local_variable_subs(var))
                         expr = expr.xreplace(component_subs.get(component.name(), {}))
                         expr = expr.xreplace(all_subs)
 
